@@ -31,7 +31,7 @@ func dumpWrites(c *Ctx) {
 
 func init() {
 	register(&Rule{
-		ID: "C20.no-payload-write", Prop: "C20", Also: []string{"C07", "C05", "C03", "C04", "C11", "C12", "C19"}, Floor: 60, Controls: 2,
+		ID: "C20.no-payload-write", Prop: "C20", Also: []string{"C07", "C05", "C03", "C04", "C11", "C12", "C19", "C13", "C14"}, Floor: 60, Controls: 2,
 		Doc: "no function writes (store, map update, in-place append, copy, delete, math/big mutator, sort, or a callee that writes through its parameter) to memory reached through an immutable payload field (Value.v, marker.realV/marks, unknownType.refinement, the typeImpl records) of anything it did not allocate itself",
 		Run: runNoPayloadWrite,
 	})
